@@ -1,7 +1,7 @@
 import typing
 from ast import *
 
-from oneliner.namespaces import Namespace
+from oneliner.namespaces import Namespace, NamespaceFunction
 
 __all__ = [
     "expr_transf",
@@ -196,6 +196,35 @@ class PendingLambda(PendingExprGeneric[Lambda]):
         self.converted_dict["body"] = body
 
 
+class PendingZeroArgSuper(PendingExprGeneric[Call]):
+    """
+    super() takes __class__ and the first parameter of the function it is called in.
+    The converted code calls it inside helper lambdas (e.g. the test of a while loop),
+    which have parameters of their own: give it the two arguments.
+    """
+
+    def __init__(self, node: Call, nsp: NamespaceFunction):
+        self.node = node
+        self.nsp = nsp
+
+        self.iter_fields = self._iter_fields()
+
+    def _iter_fields(self):
+        return
+        yield
+
+    def get_result(self) -> expr:
+        assert self.nsp.first_parameter is not None
+        return Call(
+            func=self.nsp.get_load_name("super"),
+            args=[
+                Name(id="__class__", ctx=Load()),
+                self.nsp.get_load_name(self.nsp.first_parameter),
+            ],
+            keywords=[],
+        )
+
+
 class ExpressionTransformer:
     def __init__(self, nsp: Namespace):
         self.pending_stack: list[PendingExprGeneric] = []
@@ -218,8 +247,33 @@ class ExpressionTransformer:
             return PendingComp(node, self.nsp)
         elif isinstance(node, Lambda):
             return PendingLambda(node, self.nsp)
+        elif (
+            isinstance(node, Call)
+            and isinstance(node.func, Name)
+            and node.func.id == "super"
+            and not node.args
+            and not node.keywords
+            and self.in_method_using_super()
+        ):
+            return PendingZeroArgSuper(node, self.nsp)  # type: ignore
         else:
             return PendingExpr(node)
+
+    def in_method_using_super(self) -> bool:
+        nsp = self.nsp
+        if not (
+            isinstance(nsp, NamespaceFunction)
+            and nsp.zero_arg_super_used
+            and nsp.first_parameter is not None
+        ):
+            return False
+        for comp in nsp.comp_stack:
+            # inside a lambda of the script, super() takes the parameter of that lambda
+            if isinstance(comp, PendingLambda):
+                return False
+            if nsp.first_parameter in comp.target_names:
+                return False
+        return True
 
     def cvt(self, node: expr):
         unconverted: expr | None = node
